@@ -160,6 +160,8 @@ def _build(case):
                                       SklearnNormalRegressor, SklearnRegressor)
     comp = case["component"]
     seed = case["seed"]
+    if case.get("reg_random_state") == "none":
+        seed = None
     if comp in KERNEL:
         md = None if case["gamma"] is None else {"gamma": case["gamma"]}
         if comp == "NICKernelRegressor":
@@ -290,7 +292,15 @@ def _case(draw):
             j = draw(st.integers(0, d - 1))
             q[j] = q[j] + draw(st.sampled_from([-150.0, 150.0]))
         Xq.append([float(v) for v in q])
+    # query matrices with an integer dtype (e.g. one-hot / count features)
+    case["xq_int"] = draw(st.integers(0, 3)) == 0
+    if case["xq_int"]:
+        Xq = [[float(round(v)) for v in q] for q in Xq]
     case["Xq"] = Xq
+    # seeds passed to sample_y (0 is a valid seed) and the regressor's own
+    # random_state (None is the default)
+    case["sample_seed"] = draw(st.sampled_from([0, 0, 1, 12345]))
+    case["reg_random_state"] = draw(st.sampled_from(["int", "int", "none"]))
     return case
 
 
@@ -412,7 +422,8 @@ def _fallback_expectation(case):
 
 
 def _check_sampling(reg, comp, case, Xq, trig, viol, labels):
-    m, s = case["n_samples"], case["seed"] % 100000
+    m = case["n_samples"]
+    s = case.get("sample_seed", case["seed"] % 100000)
     ok1, s1 = guarded(reg.sample_y, Xq.copy(), m, random_state=s)
     if not ok1:
         viol.append(exc_violation(comp, s1, trig, "sample_y"))
@@ -498,6 +509,8 @@ def _run_kernel(case):
     X = np.array(case["X"], dtype=float)
     y = np.array(case["y"], dtype=float)
     Xq = np.array(case["Xq"], dtype=float)
+    if case.get("xq_int"):
+        Xq = Xq.astype(int)
     q = len(Xq)
     sw = case.get("sample_weight")
     base_trig = f"prior={pcl}"
@@ -615,6 +628,8 @@ def _run_wrapper(case):
     X = np.array(case["X"], dtype=float)
     y = np.array(case["y"], dtype=float)
     Xq = np.array(case["Xq"], dtype=float)
+    if case.get("xq_int"):
+        Xq = Xq.astype(int)
     q = len(Xq)
     yl = y[~np.isnan(y)]
     zero_std = fails and n_lab >= 2 and float(np.std(yl)) == 0.0
